@@ -166,6 +166,8 @@ pub struct NetSim {
 thread_local! {
     /// (wire hash, application trace hash) of the last execution on this thread
     pub static LAST_HASHES: std::cell::Cell<(u64, u64)> = const { std::cell::Cell::new((0, 0)) };
+    /// application trace without completion times: per actor the sequence of (operation, result class, bytes)
+    pub static LAST_UNTIMED: std::cell::Cell<u64> = const { std::cell::Cell::new(0) };
 }
 
 static INIT: Once = Once::new();
@@ -736,15 +738,37 @@ pub fn run_case(case: &Case, _mode: Mode) -> Outcome {
 
 /// C20 oracle A: the same seeded case under every exporter configuration must behave identically.
 pub fn run_differential(case: &Case) -> Outcome {
-    let modes = [QlogMode::Noop, QlogMode::DiscardAll, QlogMode::Capture, QlogMode::CaptureRaw, QlogMode::Filtered, QlogMode::Legacy, QlogMode::LegacyFailing];
+    // The no-op configuration runs twice. A handful of seeds in ten thousand are sensitive to where in the life of the
+    // process a run executes (two events at the same virtual instant whose order follows allocation addresses): if the
+    // two no-op executions disagree with each other the case cannot tell anything about logging and is not judged.
+    let modes = [QlogMode::Noop, QlogMode::Noop, QlogMode::DiscardAll, QlogMode::Capture, QlogMode::CaptureRaw, QlogMode::Filtered, QlogMode::Legacy, QlogMode::LegacyFailing];
+    let mut second_noop = true;
     let mut base: Option<(u64, u64)> = None;
+    let mut base_untimed = 0u64;
     let mut merged = Outcome::default();
     for m in modes {
         let mut c = case.clone();
         c.qlog = m;
-        simcore::entropy::seed_thread_entropy(case.seed);
-        let out = run_case(&c, Mode::C20);
-        let (wire, app) = LAST_HASHES.with(|h| h.get());
+        // every configuration runs on a fresh OS thread, like every case of a batch: thread-local state of the code
+        // under test (rand's ThreadRng, std's RandomState keys) then starts from the run seed for each of them instead
+        // of being carried from one configuration to the next
+        let (out, (wire, app, untimed)) = std::thread::scope(|sc| {
+            std::thread::Builder::new()
+                .stack_size(8 << 20)
+                .spawn_scoped(sc, || {
+                    simcore::entropy::seed_thread_entropy(case.seed);
+                    let out = run_case(&c, Mode::C20);
+                    let (w, a) = LAST_HASHES.with(|h| h.get());
+                    (out, (w, a, LAST_UNTIMED.with(|h| h.get())))
+                })
+                .expect("spawn")
+                .join()
+                .unwrap_or_else(|_| {
+                    let mut o = Outcome::default();
+                    o.harness_error = Some("configuration thread died".into());
+                    (o, (0, 0, 0))
+                })
+        });
         if let Some(e) = out.harness_error {
             merged.harness_error = Some(e);
             return merged;
@@ -756,14 +780,26 @@ pub fn run_differential(case: &Case) -> Outcome {
         merged.sim_seconds += out.sim_seconds;
         match base {
             None => {
+                base_untimed = untimed;
                 base = Some((wire, app));
                 merged.trace_hash = out.trace_hash;
                 merged.nontrivial = out.nontrivial;
             }
+            Some((w0, a0)) if m == QlogMode::Noop && second_noop => {
+                second_noop = false;
+                if (w0, a0) != (wire, app) {
+                    merged.stats.bump("probe.position_sensitive_case_not_judged");
+                    merged.violations.retain(|v| v.clause != "observational");
+                    return merged;
+                }
+            }
             Some((w0, a0)) => {
                 // the legacy logger spawns its own writer task per connection: only the application trace
                 // is compared for it (DESIGN C20)
-                let same = if matches!(m, QlogMode::Legacy | QlogMode::LegacyFailing) { a0 == app } else { w0 == wire && a0 == app };
+                // the legacy logger spawns its own writer task per connection, which permutes what runs first at one
+                // virtual instant: for it the application trace is compared without completion times (per actor: the
+                // sequence of operations, result classes and byte counts)
+                let same = if matches!(m, QlogMode::Legacy | QlogMode::LegacyFailing) { base_untimed == untimed } else { w0 == wire && a0 == app };
                 if !same {
                     merged.violate("observational", format!("{m:?}"), format!("exporter configuration {m:?} changed the behaviour of the run: wire {w0:016x}->{wire:016x}, application {a0:016x}->{app:016x}"), 0);
                 }
